@@ -260,6 +260,29 @@ Theorem authority_nsec_sound :
 Proof. exact authority_nsec_sound_lemma. Qed.
 Print Assumptions authority_nsec_sound.
 
+(* ---- the same entry point with its signature layer (session 4; findRRSIGSigners / verifyDNSSEC /
+   dnssec.VerifyRRSIG in front of the NSEC branch): every record of the authority section carries one bit,
+   "its RRset has an RRSIG that verifies under the signer zone's key".  Hypothesis = the cryptography: what
+   the zone's key signed is a genuine chain record.  Everything else is arbitrary: unsigned records, a
+   child or sibling zone's records replayed under their own keys, records outside the zone.  Then
+   Resolver.authority authenticates (AD) / publishes / marks eligible only true denials — a mixture with
+   another zone's records is refused or harmless, never a fabricated denial *)
+Theorem authority_nsec_signed_sound :
+  forall z recs rcode cd q qtype qclass ad marked aggr,
+  zone_wf z -> (forall r, In (r, true) recs -> genuine z r) -> is_prefix (z_apex z) q ->
+  authority_nsec_signed rcode cd q qtype qclass (z_apex z) recs = (E_ok, ad, marked, aggr) ->
+  (ad = true \/ marked = true \/ aggr = true) ->
+  cd = false /\ (if (rcode =? RC_NXDOMAIN)%N then ~ exists_in z q else nodata_true z q qtype).
+Proof. exact authority_nsec_signed_sound_lemma. Qed.
+Print Assumptions authority_nsec_signed_sound.
+(* one record owned inside the signer zone without a verifying signature of the zone refuses the response *)
+Theorem authority_foreign_signed_refused :
+  forall rcode q qtype qclass signer recs r,
+  In (r, false) recs -> prefix_b signer (c_owner r) = true ->
+  authority_nsec_signed rcode false q qtype qclass signer recs = (E_other, false, false, false).
+Proof. exact authority_unsigned_refused. Qed.
+Print Assumptions authority_foreign_signed_refused.
+
 (* ---- shared negative-cache state behind Cache.ServeDNS (ModelShared.v: admission guard, denial-proof
    index, subtree cuts; replacement, expiry, pruning, retirement of a zone without a live SOA, per-zone
    FIFO eviction in both caches).
